@@ -188,6 +188,56 @@ def run_preserve(acc, nt, block, nblocks, tier):
     acc.sample({"helper": "to_reduced_units", "registry": nt, "units": {k: str(v) for k, v in cs[block * 13 % len(cs)].items()}, "magnitudes": [str(m) for m in mags]})
 
 
+def run_arrays(acc):
+    """ndarray magnitudes: a returning helper leaves the object it is called on bit-identical — also when it is called
+    again on the same object, and under a non-default system —, repeats its answer, preserves the value elementwise, and
+    its in-place twin ends in the same state"""
+    import numpy as np
+
+    ureg = regs.default("float", fresh=True)
+    helpers = dict(HELPERS)
+    helpers["to_unprefixed"] = (lambda q: q.to_unprefixed(), lambda q: q.ito_unprefixed())
+    helpers["to_preferred"] = (lambda q: q.to_preferred([ureg.Unit("meter"), ureg.Unit("second"), ureg.Unit("kilogram"), ureg.Unit("newton")]), None)
+    cs = [c for c in containers(2) if all(abs(v) <= 2 for v in c.values())]
+    extra = [{"kilometer": 1}, {"millimeter": 1, "microsecond": -1}, {"kilonewton": 1, "millimeter": 1}, {"nanometer": -1}]
+    for units in cs[:: max(1, len(cs) // 60)] + extra:
+        uc = ureg.UnitsContainer(units)
+        for values in ([2.5, -40.0, 1250.0], [1e-7, 3.0, 0.0]):
+            src = np.array(values)
+            for name, (fn, ifn) in helpers.items():
+                for sysname in (None, "cgs") if name == "to_base_units" else (None,):
+                    if sysname:
+                        ureg.default_system = sysname
+                    try:
+                        q = ureg.Quantity(src.copy(), uc)
+                        case = {"registry": "float", "units": {k: str(v) for k, v in units.items()}, "magnitude": values, "default_system": sysname}
+                        acc.ev()
+                        acc.nt(("array", name, tuple(units.items()), tuple(values), sysname))
+                        o1 = call(lambda: fn(q))
+                        if o1[0] != "ok":
+                            continue  # refusals are judged on scalars (same code path)
+                        o2 = call(lambda: fn(q))
+                        if not np.array_equal(q._magnitude, src, equal_nan=True) or dict(q._units) != dict(uc):
+                            acc.violation([name, "functional-form", "modifies-its-operand", "float-array"], case, values, show(q))
+                            continue
+                        r = o1[1]
+                        if o2[0] != "ok" or dict(o2[1]._units) != dict(r._units) or not np.allclose(o2[1]._magnitude, r._magnitude, rtol=1e-12, atol=0, equal_nan=True):
+                            acc.violation([name, "functional-form", "second-call-on-the-same-object-differs", "float-array"], case, show(r), show(o2[1]) if o2[0] == "ok" else o2[1])
+                        back = call(lambda: r.to(uc)._magnitude)
+                        if back[0] != "ok" or not np.allclose(back[1], src, rtol=1e-9, atol=0):
+                            acc.violation([name, "preservation", "physical-value-changed", "float-array"], case, values, show(r))
+                        if ifn is not None:
+                            q2 = ureg.Quantity(src.copy(), uc)
+                            o3 = call(lambda: ifn(q2))
+                            if o3[0] != "ok" or dict(q2._units) != dict(r._units) or not np.allclose(q2._magnitude, r._magnitude, rtol=1e-12, atol=0, equal_nan=True):
+                                acc.violation([name, "in-place-form", "differs-from-functional-form", "float-array"], case, show(r), show(q2))
+                    finally:
+                        if sysname:
+                            ureg.default_system = "mks"
+    acc.outcome("arrays")
+    acc.sample({"clause": "ndarray magnitudes", "helpers": sorted(helpers), "units": {"millimeter": "1", "microsecond": "-1"}, "magnitude": [2.5, -40.0, 1250.0]})
+
+
 def run_systems(acc, sname):
     M = model()
     ureg = regs.default("Fraction", fresh=True)
@@ -430,7 +480,7 @@ def shards(tier, seed):
         out.append(("systems", s_))
     for nt in ("Fraction", "float", "Decimal", "ufloat"):
         out.append(("compact", nt))
-    out += [("preferred",), ("auto", "auto_reduce_dimensions"), ("auto", "autoconvert_to_preferred")]
+    out += [("preferred",), ("auto", "auto_reduce_dimensions"), ("auto", "autoconvert_to_preferred"), ("arrays",)]
     return out
 
 
@@ -444,6 +494,8 @@ def run_shard(acc, shard, tier, seed):
         run_compact(acc, shard[1], tier)
     elif k == "preferred":
         run_preferred(acc)
+    elif k == "arrays":
+        run_arrays(acc)
     elif k == "auto":
         run_auto(acc, shard[1])
     else:
@@ -455,7 +507,9 @@ def replay(rec):
     acc = core.Acc(PROPERTY)
     nt = case.get("registry", site[-1] if site[-1] in NIT else "float")
     tier = rec.get("tier", "quick")
-    if site[0] == "to_compact":
+    if site[-1] == "float-array":
+        run_arrays(acc)
+    elif site[0] == "to_compact":
         run_compact(acc, nt if nt in ("Fraction", "float", "Decimal", "ufloat") else "float", tier)
     elif site[0] == "to_preferred":
         run_preferred(acc)
